@@ -69,6 +69,8 @@ CONSTANTS
 VARIABLES
     cache,      \* writer: set of <<day, key, type>> (type 0 when the key ignores the type)
     poison,     \* ghost: cache entries set although no series row was inserted: <<day, key, type, trigger>>
+    skipped,    \* ghost: <<day, key, ty, cause>>: a request found (day, key) cached, emitted no series row, and no row
+                \* (day, key, ty) is stored -- with the reason the cache entry exists
     series,     \* time_series (+ time_series_gin): [day, key, ty]
     samples,    \* samples_v3 (+ metrics_15s): [ty, key, t]
     spans,      \* tempo_traces: [key, t]
@@ -85,7 +87,7 @@ VARIABLES
     view, blame \* export (constant <<>> unless ExportView)
 
 dbvars == <<series, samples, spans, attrs, profs>>
-vars == <<cache, poison, series, samples, spans, attrs, profs, landed, open, acked, ackedRetry, today, n, last, turn, view, blame>>
+vars == <<cache, poison, skipped, series, samples, spans, attrs, profs, landed, open, acked, ackedRetry, today, n, last, turn, view, blame>>
 
 ----------------------------------------------------------------------------
 Day(t) == t \div SlotsPerDay
@@ -126,9 +128,18 @@ Ok(sig, items, fail, bad) ==
     THEN SamplesOk(fail, bad) /\ (NewPairs(TypeOf(sig), items) # {} => SeriesOk(fail, bad))
     ELSE fail = {} /\ ~bad
 
+HasRow(d, k, ty) == \E r \in series : r.day = d /\ r.key = k /\ r.ty = ty
+PoisonedBy(d, k, ty, tr) == \E z \in poison : z[1] = d /\ z[2] = k /\ z[3] \in {0, ty} /\ z[4] = tr
+CauseAt(d, k, ty) ==
+    IF PoisonedBy(d, k, ty, "parse-error") THEN "cache-set-before-insert|parse-error"
+    ELSE IF PoisonedBy(d, k, ty, "insert-failed") THEN "cache-set-before-insert|insert-failed"
+    ELSE IF CacheKeyIgnoresType THEN "cache-key-ignores-type"
+    ELSE "unexplained"
+
 IngestLM(sig, items, fail, bad) ==
     LET ty == TypeOf(sig)
         new == NewPairs(ty, items)
+        hits == {p \in Pairs(items) \ new : ~HasRow(p[1], p[2], ty) /\ ~\E z \in skipped : z[1] = p[1] /\ z[2] = p[2] /\ z[3] = ty}
         sOk == SeriesOk(fail, bad)
         pOk == SamplesOk(fail, bad)
         setC == CacheSetBeforeInsert \/ sOk
@@ -136,6 +147,7 @@ IngestLM(sig, items, fail, bad) ==
     IN  /\ cache' = IF setC THEN cache \cup {CK(p[1], p[2], ty) : p \in new} ELSE cache
         /\ poison' = IF setC /\ ~sOk THEN poison \cup {<<p[1], p[2], CK(p[1], p[2], ty)[3], trig>> : p \in new} ELSE poison
         /\ series' = IF sOk THEN series \cup {[day |-> p[1], key |-> p[2], ty |-> ty] : p \in new} ELSE series
+        /\ skipped' = {z \in skipped : ~(sOk /\ z[3] = ty /\ <<z[1], z[2]>> \in new)} \cup {<<p[1], p[2], ty, CauseAt(p[1], p[2], ty)>> : p \in hits}
         /\ samples' = IF pOk THEN samples \cup {[ty |-> ty, key |-> it.key, t |-> it.t] : it \in items} ELSE samples
         /\ landed' = landed \cup (IF pOk THEN {<<"samples_v3", it>> : it \in items} ELSE {})
                             \cup (IF sOk THEN {<<"time_series", it>> : it \in {i \in items : <<Day(i.t), i.key>> \in new}} ELSE {})
@@ -145,12 +157,12 @@ IngestTraces(items, fail) ==
     /\ spans' = IF "tempo_traces" \notin fail THEN spans \cup {[key |-> it.key, t |-> it.t] : it \in items} ELSE spans
     /\ attrs' = IF "tempo_traces_attrs_gin" \notin fail THEN attrs \cup {[key |-> it.key, t |-> it.t] : it \in items} ELSE attrs
     /\ landed' = landed \cup {<<tb, it>> : tb \in Tables("traces") \ fail, it \in items}
-    /\ UNCHANGED <<cache, poison, series, samples, profs>>
+    /\ UNCHANGED <<cache, poison, skipped, series, samples, profs>>
 
 IngestProfiles(items, fail) ==
     /\ profs' = IF fail = {} THEN profs \cup {[key |-> it.key, t |-> it.t] : it \in items} ELSE profs
     /\ landed' = landed \cup {<<tb, it>> : tb \in Tables("profiles") \ fail, it \in items}
-    /\ UNCHANGED <<cache, poison, series, samples, spans, attrs>>
+    /\ UNCHANGED <<cache, poison, skipped, series, samples, spans, attrs>>
 
 Ingest(sig, items, fail, bad) ==
     IF sig \in LM THEN IngestLM(sig, items, fail, bad)
@@ -219,12 +231,9 @@ Expect(ep, it) == IF ep \in ItemGrain THEN it ELSE IF ep = "prof_profile_types" 
 Readable(it) == \A ep \in {e \in EPs : EPSig[e] = it.sig} : \A w \in Windows : InWin(it.t, w) => Expect(ep, it) \in Answer(ep, it.key, w)
 
 \* why an acknowledged item is not readable (ghost attribution for the replay's signatures)
-Poisoned(it, tr) == \E p \in poison : p[1] = Day(it.t) /\ p[2] = it.key /\ p[3] \in {0, TypeOf(it.sig)} /\ p[4] = tr
 Cause(it) ==
-    IF it.sig \notin LM THEN "unexplained"
-    ELSE IF Poisoned(it, "parse-error") THEN "cache-set-before-insert|parse-error"
-    ELSE IF Poisoned(it, "insert-failed") THEN "cache-set-before-insert|insert-failed"
-    ELSE IF CacheKeyIgnoresType /\ <<Day(it.t), it.key, 0>> \in cache THEN "cache-key-ignores-type"
+    IF it.sig \in LM /\ \E z \in skipped : z[1] = Day(it.t) /\ z[2] = it.key /\ z[3] = TypeOf(it.sig)
+    THEN (CHOOSE z \in skipped : z[1] = Day(it.t) /\ z[2] = it.key /\ z[3] = TypeOf(it.sig))[4]
     ELSE "unexplained"
 
 View == IF ExportView THEN TLCEval([x \in EPs \X Keys \X Windows |-> Answer(x[1], x[2], x[3])]) ELSE <<>>
@@ -233,11 +242,20 @@ Blame == IF ExportView THEN TLCEval({[sig |-> it.sig, key |-> it.key, t |-> it.t
 ----------------------------------------------------------------------------
 NoAns == {}
 \* (in exhaustive runs without queries the client's last observation is not part of the state: fewer states)
+\* It also names the step with its arguments, so that a printed counterexample is a replayable history.
+LastP(kind, status, sig, items, fail, bad, lost) ==
+    IF ExportView \/ MaxQueries > 0
+    THEN [kind |-> kind, status |-> status, sig |-> sig, items |-> items, fail |-> fail, bad |-> bad, lost |-> lost,
+          ep |-> "", key |-> 0, from |-> 0, to |-> 0, ans |-> {}]
+    ELSE <<>>
 Last(kind, status, ep, k, w, ans) ==
-    IF ExportView \/ MaxQueries > 0 THEN [kind |-> kind, status |-> status, ep |-> ep, key |-> k, from |-> w[1], to |-> w[2], ans |-> ans] ELSE <<>>
+    IF ExportView \/ MaxQueries > 0
+    THEN [kind |-> kind, status |-> status, sig |-> "", items |-> {}, fail |-> {}, bad |-> FALSE, lost |-> FALSE,
+          ep |-> ep, key |-> k, from |-> w[1], to |-> w[2], ans |-> ans]
+    ELSE <<>>
 
 Init ==
-    /\ cache = {} /\ poison = {} /\ series = {} /\ samples = {} /\ spans = {} /\ attrs = {} /\ profs = {} /\ landed = {}
+    /\ cache = {} /\ poison = {} /\ skipped = {} /\ series = {} /\ samples = {} /\ spans = {} /\ attrs = {} /\ profs = {} /\ landed = {}
     /\ open = {} /\ acked = {} /\ ackedRetry = {} /\ today = 0
     /\ n = [push |-> 0, fault |-> 0, retry |-> 0, clear |-> 0, lost |-> 0, bad |-> 0, query |-> 0]
     /\ last = Last("init", "", "", 0, <<0, 0>>, NoAns)
@@ -253,7 +271,7 @@ CanDo(kind) ==
       [] kind = "query" -> n.query < MaxQueries
 Choose(kind) ==
     /\ turn = "choose" /\ CanDo(kind) /\ turn' = kind
-    /\ UNCHANGED <<cache, poison, series, samples, spans, attrs, profs, landed, open, acked, ackedRetry, today, n, last, view, blame>>
+    /\ UNCHANGED <<cache, poison, skipped, series, samples, spans, attrs, profs, landed, open, acked, ackedRetry, today, n, last, view, blame>>
 
 Status(sig, items, fail, bad, lost) == IF lost THEN "none" ELSE IF Ok(sig, items, fail, bad) THEN "2xx" ELSE "err"
 
@@ -270,7 +288,7 @@ Push(sig, items, fail, bad, lost) ==
     /\ LET st == Status(sig, items, fail, bad, lost)
        IN /\ acked' = IF st = "2xx" THEN acked \cup items ELSE acked
           /\ open' = IF st = "2xx" THEN open ELSE open \cup {[sig |-> sig, items |-> items, status |-> st]}
-          /\ last' = Last("push", st, "", 0, <<0, 0>>, NoAns)
+          /\ last' = LastP("push", st, sig, items, fail, bad, lost)
     /\ n' = [n EXCEPT !.push = @ + 1, !.fault = @ + (IF fail # {} THEN 1 ELSE 0), !.bad = @ + (IF bad THEN 1 ELSE 0), !.lost = @ + (IF lost THEN 1 ELSE 0)]
     /\ UNCHANGED <<ackedRetry, today>>
     /\ view' = View' /\ blame' = Blame'
@@ -288,7 +306,7 @@ Retry(sig, items, fail) ==
        IN /\ acked' = IF st = "2xx" THEN acked \cup items ELSE acked
           /\ ackedRetry' = IF st = "2xx" THEN ackedRetry \cup items ELSE ackedRetry
           /\ open' = IF st = "2xx" THEN rest ELSE rest \cup {[sig |-> sig, items |-> items, status |-> "err"]}
-          /\ last' = Last("retry", st, "", 0, <<0, 0>>, NoAns)
+          /\ last' = LastP("retry", st, sig, items, fail, FALSE, FALSE)
     /\ n' = [n EXCEPT !.retry = @ + 1, !.fault = @ + (IF fail # {} THEN 1 ELSE 0)]
     /\ UNCHANGED today
     /\ view' = View' /\ blame' = Blame'
@@ -300,7 +318,7 @@ CacheClear ==
     /\ cache' = {} /\ poison' = {}
     /\ n' = [n EXCEPT !.clear = @ + 1]
     /\ last' = Last("clear", "", "", 0, <<0, 0>>, NoAns)
-    /\ UNCHANGED <<series, samples, spans, attrs, profs, landed, open, acked, ackedRetry, today>>
+    /\ UNCHANGED <<skipped, series, samples, spans, attrs, profs, landed, open, acked, ackedRetry, today>>
     /\ view' = View' /\ blame' = Blame'
 
 Rollover ==
@@ -308,7 +326,7 @@ Rollover ==
     /\ today < MaxDay
     /\ today' = today + 1
     /\ last' = Last("rollover", "", "", 0, <<0, 0>>, NoAns)
-    /\ UNCHANGED <<cache, poison, series, samples, spans, attrs, profs, landed, open, acked, ackedRetry, n>>
+    /\ UNCHANGED <<cache, poison, skipped, series, samples, spans, attrs, profs, landed, open, acked, ackedRetry, n>>
     /\ view' = View' /\ blame' = Blame'
 
 Query(ep, k, w) ==
@@ -317,7 +335,7 @@ Query(ep, k, w) ==
     /\ ep \in EPs /\ k \in Keys /\ w \in Windows
     /\ last' = Last("query", "", ep, k, w, Answer(ep, k, w))
     /\ n' = [n EXCEPT !.query = @ + 1]
-    /\ UNCHANGED <<cache, poison, series, samples, spans, attrs, profs, landed, open, acked, ackedRetry, today, view, blame>>
+    /\ UNCHANGED <<cache, poison, skipped, series, samples, spans, attrs, profs, landed, open, acked, ackedRetry, today, view, blame>>
 
 Next ==
     \/ \E sig \in Signals : \E items \in Bodies(sig) : \E fail \in SUBSET Tables(sig) : \E bad, lost \in BOOLEAN : Push(sig, items, fail, bad, lost)
